@@ -158,6 +158,10 @@ def circuit_from_qulacs(qulacs_circuit: QulacsQuantumCircuit) -> NPQC:
                         control_indices=(gate.get_control_index_list()),
                     ),
                 )
+            elif len(json_dic) > 0:
+                # The matrix only describes the action on the target qubits:
+                # dropping the controls would change the gate.
+                raise ValueError("Controlled DenseMatrix gate is not supported.")
             else:
                 circuit.add_gate(
                     UnitaryMatrix(
